@@ -41,7 +41,7 @@ pub struct Case {
 pub struct C11;
 
 fn clone_state(st: &HState) -> HState {
-    HState { t: st.t.clone(), r: st.r.clone(), in_dim: st.in_dim, out_dim: st.out_dim, anchors: st.anchors.clone(), shift: st.shift, tracking: st.tracking }
+    HState { t: st.t.clone(), r: st.r.clone(), in_dim: st.in_dim, out_dim: st.out_dim, anchors: st.anchors.clone(), shift: st.shift, total_operands_only: st.total_operands_only, tracking: st.tracking }
 }
 
 fn dump_key(st: &HState) -> u64 {
